@@ -40,30 +40,30 @@ theorem inlinePhaseF_unused (refs : Option (List Bytes)) (env : GM.Inl.Env) (src
 
 mutual
 /-- on nodes without the representation (every emphasis level ≥ 1) nothing is decoded -/
-theorem inlineTreeF_lvOK (src : Bytes) : ∀ n : GM.Inl.Node, lvOK n = true → inlineTreeF true src n = inlineTree src n
+theorem inlineTreeF_lvOK (m : Nat) (src : Bytes) : ∀ n : GM.Inl.Node, lvOK n = true → inlineTreeF true m src n = inlineTree src n
   | .text .., _ => by simp [inlineTreeF, inlineTree]
   | .codeSpan ks, h => by
     simp only [lvOK] at h
-    simp only [inlineTreeF, inlineTree, inlineTreesF_lvOK src ks h]
+    simp only [inlineTreeF, inlineTree, inlineTreesF_lvOK m src ks h]
   | .emphasis lv ks, h => by
     simp only [lvOK, Bool.and_eq_true, decide_eq_true_eq] at h
     have h0 : fnLinkPos? lv = none := by
       unfold fnLinkPos?
       have : ¬ lv ≤ -3 := by omega
       simp [this]
-    simp only [inlineTreeF, inlineTree, if_true, h0, inlineTreesF_lvOK src ks h.2]
+    simp only [inlineTreeF, inlineTree, if_true, h0, inlineTreesF_lvOK m src ks h.2]
   | .link _ _ _ ks, h => by
     simp only [lvOK] at h
-    simp only [inlineTreeF, inlineTree, inlineTreesF_lvOK src ks h]
+    simp only [inlineTreeF, inlineTree, inlineTreesF_lvOK m src ks h]
   | .autoLink .., _ => by simp [inlineTreeF, inlineTree]
   | .rawHTML .., _ => by simp [inlineTreeF, inlineTree]
   | .delim .., _ => by simp [inlineTreeF, inlineTree]
   | .label .., _ => by simp [inlineTreeF, inlineTree]
-theorem inlineTreesF_lvOK (src : Bytes) : ∀ ns : List GM.Inl.Node, lvOKL ns = true → inlineTreesF true src ns = inlineTrees src ns
+theorem inlineTreesF_lvOK (m : Nat) (src : Bytes) : ∀ ns : List GM.Inl.Node, lvOKL ns = true → inlineTreesF true m src ns = inlineTrees src ns
   | [], _ => by simp [inlineTreesF, inlineTrees]
   | n :: rest, h => by
     simp only [lvOKL, Bool.and_eq_true] at h
-    simp only [inlineTreesF, inlineTrees, inlineTreeF_lvOK src n h.1, inlineTreesF_lvOK src rest h.2]
+    simp only [inlineTreesF, inlineTrees, inlineTreeF_lvOK m src n h.1, inlineTreesF_lvOK m src rest h.2]
 end
 
 theorem inlinePhase_lvOK (env : GM.Inl.Env) (src : Bytes) (n : Blocks.Node) (kids : List GM.Inl.Node)
@@ -90,7 +90,7 @@ theorem docTreeF_unused (refs : Option (List Bytes)) (env : GM.Inl.Env) (src : B
       | error e => rfl
       | ok kids =>
         simp only [bind, Except.bind]
-        rw [inlineTreesF_lvOK src kids (inlinePhase_lvOK env src n kids hk)]
+        rw [inlineTreesF_lvOK _ src kids (inlinePhase_lvOK env src n kids hk)]
         rfl
 theorem docTreesF_unused (refs : Option (List Bytes)) (env : GM.Inl.Env) (src : Bytes) (h91 : (91 : UInt8) ∉ src)
     (h33 : (33 : UInt8) ∉ src) : ∀ ts : List Tree, docTreesF true true refs env src (plainTrees ts) = docTrees true env src ts
@@ -107,7 +107,8 @@ theorem parseDocF_unused (uc : List (Nat × (Bool × Bool))) (src : Bytes) (h91 
   cases blockPhase true src with
   | error e => rfl
   | ok st =>
-    simp only [Except.map, liftErr, bind, Except.bind, listKids, treeOfF_empty, docTreeF_unused _ _ src h91 h33]
+    simp only [Except.map, liftErr, bind, Except.bind, listKids, treeOfF_empty, monitor_empty, docTreeF_unused _ _ src h91 h33,
+      Bool.false_eq_true, if_false]
     cases docTree true { refs := st.pc.refs, uc := uc } src (treeOf st.nodes st.nodes.length 0) with
     | error e => rfl
     | ok t => simp [finishDoc, pure, Except.pure]
@@ -282,7 +283,7 @@ theorem docTreeF_nolist (env : GM.Inl.Env) (src : Bytes) : ∀ t : Tree,
       | error e => rfl
       | ok kids =>
         simp only [bind, Except.bind]
-        rw [inlineTreesF_lvOK src kids (inlinePhase_lvOK env src n kids hk)]
+        rw [inlineTreesF_lvOK _ src kids (inlinePhase_lvOK env src n kids hk)]
         rfl
 theorem docTreesF_nolist (env : GM.Inl.Env) (src : Bytes) : ∀ ts : List Tree,
     docTreesF true true none env src (plainTrees ts) = docTrees true env src ts
@@ -299,7 +300,7 @@ theorem parseDocF_cons (uc : List (Nat × (Bool × Bool))) (src : Bytes) (h : GM
   cases blockPhase true src with
   | error e => rfl
   | ok st =>
-    simp only [Except.map, liftErr, bind, Except.bind, listKids, treeOfF_empty]
+    simp only [Except.map, liftErr, bind, Except.bind, listKids, treeOfF_empty, monitor_empty, Bool.false_eq_true, if_false]
     have hnone : (if (({} : FS).list.isSome) = true then some (labelsOf {} st) else none) = none := rfl
     rw [hnone, docTreeF_nolist]
     cases docTree true { refs := st.pc.refs, uc := uc } src (treeOf st.nodes st.nodes.length 0) with
